@@ -4412,6 +4412,19 @@ impl Compiler {
             let patterns_len = nested_patterns.len() as u8;
 
             let comparison_op = if first_or_last_pattern_is_ellipsis {
+                // Values without a defined size can't match the nested patterns.
+                // The size will be null in that case, which can't be compared against the
+                // expected minimum size, so jump to the next patterns straight away.
+                self.push_op(JumpIfNull, &[temp_register]);
+                if params.is_last_alternative {
+                    params.jumps.arm_end.push(self.push_offset_placeholder());
+                } else {
+                    params
+                        .jumps
+                        .alternative_end
+                        .push(self.push_offset_placeholder());
+                }
+
                 self.push_op(SetNumberU8, &[expected_register, patterns_len - 1]);
                 GreaterOrEqual
             } else {
